@@ -39,6 +39,20 @@ Theorem C01_malformed_reported : forall evs,
 Proof. exact C01_malformed_reported_thm. Qed.
 Print Assumptions C01_malformed_reported.
 
+(* "…is reported as an error", for arbitrary chunkings: after any history without dropped chunks,
+   2*|stream|+1 further iterate ticks either restart the device or have delivered every frame of the
+   stream and only an incomplete tail is left.  So a stream containing a malformed frame always ends
+   in a restart and every well-formed frame before it has been delivered exactly once. *)
+Theorem C01_complete : forall evs k,
+  Forall ev_ok evs -> (2 * length (chunks_of evs) + 1 <= k)%nat ->
+  let o := run (evs ++ repeat Tick k) in
+  no_overflow o ->
+  In Restart o \/
+  (filter is_deliver o = map deliver_of_frame (fst (frames_of (chunks_of evs))) /\
+   snd (frames_of (chunks_of evs)) = StIncomplete).
+Proof. exact C01_complete_thm. Qed.
+Print Assumptions C01_complete.
+
 (* the length test of the code before commit 201aa16 re-delivered the previous packet *)
 Theorem C01_old_code_refuted :
   filter is_deliver (snd (run_from true init witness_evs)) =
